@@ -520,6 +520,12 @@ func TestC14Positions(t *testing.T) {
 		{"select str(sum(count(1))) where key ^= 'a'", "aggregate-inside-aggregate-argument"},
 		{"select key, sum(int(str(count(1)))) where key ^= 'a' group by key", "aggregate-inside-aggregate-argument"},
 		{"select count(join(',', count(1))) where key ^= 'a'", "aggregate-inside-aggregate-argument"},
+		{"select count(1) as c, key where key ^= 'a' group by c", "aggregate-reached-through-group-by"},
+		{"select str(count(1)), key where key ^= 'a' group by str(count(1))", "aggregate-reached-through-group-by"},
+		{"select count(1) as c, c + 1 as d, key where key ^= 'a' group by d", "aggregate-reached-through-group-by"},
+		{"select int_list(1,2)[0]['x'] where key = 'a'", "subscript-behind-list-element"},
+		{"select split(key, 'k')[1][0] where key ^= 'a'", "subscript-behind-list-element"},
+		{"put ('k9', int_list(1,2)[0]['x'])", "subscript-behind-list-element"},
 	} {
 		forms = append(forms, &c14Case{Raw: raw[0], Mutant: true, Fault: raw[1]})
 	}
@@ -534,6 +540,10 @@ func TestC14Positions(t *testing.T) {
 		"select key, json(value)['a']['b'], json(value)['l'][0][1] where key ^= 'a'",
 		"put ('k1', upper(key)), ('k' + 'x', key + 'y')",
 		"select str(count(1)), sum(strlen(str(strlen(key)))) where key ^= 'a'",
+		"select key, is_int(value) as b where b",
+		"select key, (key = 'a') as b where b",
+		"select strlen(key) as g, count(1) where key ^= 'a' group by g",
+		"select list('007', '1')[0], list(value, key)[1] where key ^= 'a'",
 	} {
 		forms = append(forms, &c14Case{Raw: raw})
 	}
